@@ -135,7 +135,7 @@ func (c18) Workers() int  { return 8 }
 // driver then finds the case through the per-worker journal.
 func (c18) Journal() bool { return true }
 func (c18) Rule() string {
-	return "keepalive goroutine (VerifKeepalive) on a recording stub transport, intervals 1-10 ms: run for T then close quit; quit closed at a random phase of the ticker (0-5 intervals + 0-99 %, incl. exactly on a tick); quit closed before the goroutine starts; Ping failing at the k-th call for every k in 1..10 x interval; interval 0 / negative. Real XMPPTransport over loopback TCP (scripted server records every byte after the stream header): healthy run, server resets / closes the connection after reading n bytes (Close waiting out its timeout or answered at once). Real XMPPTransport over a scripted net.Conn: every conn.Write / conn.Close call, scripted write results (short counts, errors; after an error the connection stays dead for writing while reads block), with and without a real Client receive loop blocked on the same connection and sharing quit: the connection must get closed after the failed keep-alive and the loss be reported (ErrorHandler, Disconnected). End to end: real Client.Connect (KeepaliveInterval 2-5 ms) against the scripted XMPP server (SASL PLAIN + bind), session up for T, then ended by a server reset / the server's </stream:stream> / Client.Disconnect at a random phase; Ping and Close calls logged by a wrapper around the client's transport, keep-alive bytes counted at the server; after the Disconnected event + grace nothing may be pinged for 10 more intervals; the same over real STARTTLS with the certificate verified (RootCAs) and with InsecureSkipVerify: the keep-alive bytes must show up in the DECRYPTED stream at the server, the raw socket must carry nothing but TLS records, the session must not be torn down while it is up. WebSocket transport end to end (loopback nhooyr.io/websocket server, RFC 7395 open exchange, keepalive + receive loop started as Client.Connect does): pings answered for T, then the TCP connection underneath is reset / closed: the failed keep-alive (a WebSocket ping control frame, not whitespace: only the closed-so-that-the-loss-is-reported clause is checked there) must lead to Close, ErrorHandler and Disconnected within 8 s. Sessions on ONE Client object (the Transport is re-used by Resume; every Ping/Close logged with its goroutine, keep-alive bytes counted per server connection): drop then Resume; a stream error during which the keep-alive fails while the receiver sits in Close (ConnectTimeout 1 s), then Resume: the Close entered for session 1 must not close session 2's connection; a PostResumeHook that fails once: exactly one keep-alive loop per established session, none left by the failed attempt, its session closed. A negative KeepaliveInterval through NewClient/Connect (a crash of the library's goroutine is found through the crash journal). WebSocket: Disconnect while a keep-alive ping awaits its pong (the failed ping is answered with a second Close, which must not panic). The liveness bound applies to windows of at least 6 intervals and 30 ms. The model receives the observed schedule (successful pings before the terminating event, how the run ended) plus a random continuation and must reproduce the ordered log ping-ok/ping-failed/Close/loop-over, the number of keep-alives the server reads, the calls on the connection and the reporting of the loss. A keep-alive is compared as a CLASS: any non-empty run of XML white space (space, tab, CR, LF) written by one Ping, on the connection and in the stream the server reads; what happens for an interval <= 0 is outside the property and not compared beyond nothing-sent-nothing-closed; distinct = scenario parameters; non-trivial = at least 2 pings before the terminating event"
+	return "keepalive goroutine (VerifKeepalive) on a recording stub transport, intervals 1-10 ms: run for T then close quit; quit closed at a random phase of the ticker (0-5 intervals + 0-99 %, incl. exactly on a tick); quit closed before the goroutine starts; Ping failing at the k-th call for every k in 1..10 x interval; interval 0 / negative. Real XMPPTransport over loopback TCP (scripted server records every byte after the stream header): healthy run, server resets / closes the connection after reading n bytes (Close waiting out its timeout or answered at once). Real XMPPTransport over a scripted net.Conn: every conn.Write / conn.Close call, scripted write results (short counts, errors; after an error the connection stays dead for writing while reads block), with and without a real Client receive loop blocked on the same connection and sharing quit: the connection must get closed after the failed keep-alive and the loss be reported (ErrorHandler, Disconnected). End to end: real Client.Connect (KeepaliveInterval 2-5 ms) against the scripted XMPP server (SASL PLAIN + bind), session up for T, then ended by a server reset / the server's </stream:stream> / Client.Disconnect at a random phase; Ping and Close calls logged by a wrapper around the client's transport, keep-alive bytes counted at the server; after the Disconnected event + grace nothing may be pinged for 10 more intervals; the same over real STARTTLS with the certificate verified (RootCAs) and with InsecureSkipVerify: the keep-alive bytes must show up in the DECRYPTED stream at the server, the raw socket must carry nothing but TLS records, the session must not be torn down while it is up. WebSocket transport end to end (loopback nhooyr.io/websocket server, RFC 7395 open exchange, keepalive + receive loop started as Client.Connect does): pings answered for T, then the TCP connection underneath is reset / closed: the failed keep-alive (a WebSocket ping control frame, not whitespace: only the closed-so-that-the-loss-is-reported clause is checked there) the loss must be reported exactly once (ErrorHandler + Disconnected) by whichever path notices first - the transport's reader or the failing keep-alive, which then calls Close - and the keep-alive loop be over; and a peer that goes SILENT without closing (a TCP relay stops forwarding; reads just block): only the keep-alive can notice, its ping times out after the library's 5 s, Close follows, the loss is reported once. Sessions on ONE Client object (the Transport is re-used by Resume; every Ping/Close logged with its goroutine, keep-alive bytes counted per server connection): drop then Resume; a stream error during which the keep-alive fails while the receiver sits in Close (ConnectTimeout 1 s), then Resume: the Close entered for session 1 must not close session 2's connection; a PostResumeHook that fails once: exactly one keep-alive loop per established session, none left by the failed attempt, its session closed. A negative KeepaliveInterval through NewClient/Connect (a crash of the library's goroutine is found through the crash journal). WebSocket: Disconnect while a keep-alive ping awaits its pong (the failed ping is answered with a second Close, which must not panic). The liveness bound applies to windows of at least 6 intervals and 30 ms. The model receives the observed schedule (successful pings before the terminating event, how the run ended) plus a random continuation and must reproduce the ordered log ping-ok/ping-failed/Close/loop-over, the number of keep-alives the server reads, the calls on the connection and the reporting of the loss. A keep-alive is compared as a CLASS: any non-empty run of XML white space (space, tab, CR, LF) written by one Ping, on the connection and in the stream the server reads; what happens for an interval <= 0 is outside the property and not compared beyond nothing-sent-nothing-closed; distinct = scenario parameters; non-trivial = at least 2 pings before the terminating event"
 }
 
 func c18Suffix(r *rand.Rand) []int {
